@@ -14,7 +14,7 @@ PROPS_FILE = "Props/C10.v"
 EXPECT = ["C10_noise_estimator_inverse", "C10_chisqr_term_of_noise_model", "C10_expected_chisqr_matches_estimator"]
 # calibrated once on the unchanged tree (observed 0.87 .. 1.36), frozen with a wide safety factor
 BAND = (0.4, 2.5)
-DRIFT_FACTOR = 10.0       # at 0.02 % noise the drift-corrupted counterpart had 97 .. 243 times the pseudo chi-squared
+DRIFT_FACTOR = 10.0       # at 0.02 % noise the drift-corrupted counterpart had 97 .. 243 times the pseudo chi-squared (24 .. 36 at 0.05 %: asked to be >= 3 there)
 
 
 def run(rep, tier, seed, tr_errors):
@@ -72,7 +72,7 @@ def run(rep, tier, seed, tr_errors):
                 fac = float(ri.pseudo_chisqr / r.pseudo_chisqr)
                 stats["drift_factors"].append(round(fac, 1))
                 rep.evaluations += 1
-                if fac < DRIFT_FACTOR:
+                if fac < (DRIFT_FACTOR if noise <= 0.02 else 3.0):
                     bad.append((desc, "the drift-corrupted counterpart has only %.1f x the pseudo chi-squared" % fac))
             except Exception as e:  # noqa
                 bad.append((desc, "drift counterpart raised %s: %s" % (type(e).__name__, str(e)[:100])))
